@@ -111,6 +111,13 @@ def run(ctx):
         ctx.check(ok, "C14-R1", "args|" + fn, "%s forwards (code, subject position, comment regex) unchanged" % fn, c.where())
         ctx.check(len(return_values(b)) == 0 and c.dst["l"] == 0 and not c.dst["p"], "C14-R1", "result|" + fn, "%s returns the scan's answer as is" % fn, b.where())
     lits = rx.regex_literals(facts, r"rust_log_ref_finder::find::")
+    if not lits:
+        # the pattern may live in a module-level static (`LazyLock`, `OnceLock`, lazy_static at module scope): every
+        # regex of the crate's non-test code other than the reference-extraction one is a candidate, and there must be
+        # exactly one
+        prod = {b.id for b in facts.non_test_bodies()}
+        lits = [(c, l) for (c, l) in rx.regex_literals(facts, r".")
+                if c.body.id in prod and not re.search(r"extract_reference", c.body.id) and (l is None or "ref: " not in l)]
     if ctx.check(len(lits) == 1 and lits[0][1] is not None, "C14-R1", "anchor|comment-regex", "comment regex literal found (%s)" % [l for _, l in lits], ""):
         e = rx.equiv("(?s-u:.)*(?:%s)" % lits[0][1], "(?s-u:.)*(?:%s)" % COMMENT_SPEC)
         e2 = rx.equiv(lits[0][1], COMMENT_SPEC)
@@ -189,16 +196,30 @@ def run(ctx):
             names = [x.name.split("::")[-1] for x in chain]
             core = [n for n in names if n not in ("into_iter",)]
             skip1 = False
-            if core[:1] == ["skip"]:
-                sk = [c for c in chain if c.name.split("::")[-1] == "skip"][0]
-                skip1 = (op_const(sk.args[1]) or {}).get("int") == 1
-                core = core[1:] if skip1 else core
+            trim_map = False
+            # adapters that keep the sequence of lines: `.skip(1)` (the statement's own line) and `.map(str::trim)`
+            for ad in [c for c in chain if c.name.split("::")[-1] in ("skip", "map")]:
+                nm = ad.name.split("::")[-1]
+                if nm == "skip" and (op_const(ad.args[1]) or {}).get("int") == 1 and not skip1:
+                    skip1 = True
+                    core.remove("skip")
+                elif nm == "map" and len(ad.args) > 1:
+                    k = op_const(ad.args[1])
+                    fn = (k or {}).get("fn", "") if k else ""
+                    cbm = None
+                    if not fn:
+                        pm = op_place(ad.args[1])
+                        dm = single_def(s, pm["l"]) if pm else None
+                        cbm = facts.body(dm[2]["rv"].get("def")) if dm and dm[1] == "assign" and dm[2]["rv"]["k"] == "agg" else None
+                    if re.search(r"str>?::trim$|::trim$", fn) or (cbm is not None and [x.name.split("::")[-1] for x in cbm.calls] == ["trim"]):
+                        trim_map = True
+                        core.remove("map")
             ctx.check(core == ["rev", "lines", "index"] and root == ("param", 2), "C14-R3", "iter-chain",
                       "the iterator is exactly code[..].lines().rev() [optionally .skip(1) for the statement's own line] (chain: %s, root %s)" % (names, root), nx.where())
             loop = loop_containing(s, nx.bb)
             # the regex is applied to the trimmed line
             ch, rt = call_chain(s, cp.args[1])
-            ctx.check([x.name.split("::")[-1] for x in ch][:1] == ["trim"], "C14-R3", "captures-subject", "the comment regex is applied to the trimmed line", cp.where())
+            ctx.check([x.name.split("::")[-1] for x in ch][:1] == ["trim"] or trim_map, "C14-R3", "captures-subject", "the comment regex is applied to the trimmed line", cp.where())
             ch0, rt0 = call_chain(s, cp.args[0])
             ctx.check(rt0 == ("param", 4) and not ch0, "C14-R3", "captures-regex", "the regex used is the caller's comment regex", cp.where())
             # nearest non-blank line decides: once captures() ran, the line iterator is never advanced again
@@ -379,7 +400,8 @@ def run(ctx):
                     want = "macro_name"   # both directives are looked up from the line on which the statement starts
                     ctx.check(variants == {want}, "C14-R4", "arg-pair|" + what,
                               "that pair is the statement's %s (pair checked against Rule::%s)" % (span_of, ",".join(sorted(variants)) or "?"), C.where())
-                ctx.check(any(re.search(r"find::|get_or_init$", x.name) for x in r_rx[0]), "C14-R4", "arg-regex|" + what, "%s check uses the finder's comment regex (a static of `find`)" % what, C.where())
+                ctx.check(any(re.search(r"find::|get_or_init$|LazyLock<.*>::deref$|LazyLock::<.*>::force$|Deref>::deref$", x.name + " " + x.full) for x in r_rx[0]) or r_rx[1][0] in ("const", "static"), "C14-R4", "arg-regex|" + what,
+                          "%s check uses the finder's comment regex (a static; C14-R1 requires it to be the crate's only regex besides the reference pattern)" % what, C.where())
             # which pair: ignore -> a Pair whose as_rule was compared with Rule::macro_name; no-kvp -> the macro_args span
             # no-kvp consulted only with structured
             N_ok = False
